@@ -143,11 +143,13 @@ func (s *Server) handleConn(ctx context.Context, conn net.Conn) error {
 			return nil
 		case *pgproto3.Query:
 			start := time.Now()
+			// Authorise, and cache the decision for, exactly the text that is forwarded;
+			// the 512-byte trimmed form is only for the audit log.
 			trimmed := trimQuery(m.String)
-			key := cacheKey(trimmed)
+			key := m.String
 			decision, hit := cache.get(key)
 			if !hit {
-				allowed, reason, topics, showTopics := authorizeQuery(acl, trimmed)
+				allowed, reason, topics, showTopics := authorizeQuery(acl, m.String)
 				decision = cacheDecision{
 					created:    time.Now(),
 					allowed:    allowed,
@@ -266,18 +268,27 @@ func sendError(backend *pgproto3.Backend, message string) error {
 }
 
 func authorizeQuery(acl ACL, query string) (bool, string, []string, bool) {
-	trimmed := strings.TrimSpace(strings.TrimSuffix(query, ";"))
-	if trimmed == "" {
-		return true, "", nil, false
-	}
-	lower := strings.ToLower(trimmed)
-	if strings.HasPrefix(lower, "set ") || strings.HasPrefix(lower, "reset ") {
-		return true, "", nil, false
-	}
 	if len(acl.Allow) == 0 && len(acl.Deny) == 0 {
 		return true, "", nil, false
 	}
-	parsed, err := kafsql.Parse(trimmed)
+	// Decide on what the upstream does with exactly this text (server.handleQuery):
+	// catalog queries are answered first, from the list of all topics, whatever else
+	// the text says; then SET/RESET; everything else is parsed and executed.
+	trimmed := strings.TrimSpace(query)
+	if trimmed != "" {
+		lower := strings.ToLower(strings.TrimSuffix(trimmed, ";"))
+		if strings.Contains(lower, "pg_catalog") || strings.Contains(lower, "information_schema") {
+			if !acl.AllowShowTopics() {
+				return false, "catalog queries are not allowed by proxy ACL", nil, true
+			}
+			return true, "", nil, true
+		}
+		lower = strings.ToLower(trimmed)
+		if strings.HasPrefix(lower, "set ") || strings.HasPrefix(lower, "reset ") {
+			return true, "", nil, false
+		}
+	}
+	parsed, err := kafsql.Parse(query)
 	if err != nil {
 		return false, "proxy cannot authorize query", nil, false
 	}
